@@ -133,7 +133,7 @@ public:
             if (p) return p;
         }
         SchVector::iterator iter = std::find_if(_scheduled.begin(), _scheduled.end(),[&](const SchItem &x) {
-            return x._ident == id;
+            return x._ident == id && x._p;
         });
         if (iter == _scheduled.end()) return {};
         return std::move(iter->_p);
